@@ -67,6 +67,11 @@ def explore(ctx, depth):
         ctx.check({'clause': 'tokOf', 'cell': r['text']}, o, r['tok'], None, nontrivial=False, what='listener token differs from tokOf')
         if t is not None:
             toks.append((r['text'], t, o))
+            # the same chord written without separating spaces (`chordSpace: SPACE?`): the same notes, so the same text in every encoding
+            if c.get('k') == 'chord' and gen.glue_safe(c) and len(toks) % 2 == 0:
+                t2, o2 = tokobs.fresh_kern(r['text'].replace(' ', ''))
+                if t2 is not None:
+                    toks.append((r['text'].replace(' ', ''), t2, o2))
     sels = selections(TC, rng, depth)
     clefs = [None, '*clefG2', '*clefF4', '*clefC3', '*clefGv2']
     reqs, metas = [], []
@@ -123,7 +128,8 @@ def explore(ctx, depth):
                 if any(v != ref for v in vals.values()):
                     ctx.fail({**inp, 'clause': 'non-note cells identical'}, 'a non-note cell differs between encodings', impl=vals, expected=ref)
     # headers
-    for h in ['**kern', '**text', '**dynam', '**harm', '**mxhm', '**fing', '**root', '**dyn']:
+    # (also types that themselves begin with an encoding prefix: `**ekern` is an unknown type like any other, its extended header is `**eekern`)
+    for h in ['**kern', '**text', '**dynam', '**harm', '**mxhm', '**fing', '**root', '**dyn', '**ekern', '**bkern', '**bekern', '**akern', '**aekern', '**etext', '**bdyn', '**aetext', '**recip']:
         for e in Encoding.__members__.values():
             got = call(lambda: HeaderTokenGenerator.new(token=HeaderToken(h, 0), type=e).encoding)
             exp = {'ok': '**' + {'kern': '', 'ekern': 'e', 'bkern': 'b', 'bekern': 'be', 'akern': 'a', 'aekern': 'ae'}[e.value] + h[2:]}
@@ -152,6 +158,22 @@ def document_level(ctx, depth):
         combos.append({'enc': enc, 'include': [TC.DECORATION, TC.LYRICS, TC.CHORD, TC.STRUCTURAL, TC.BARLINES], 'exclude': None})
     docrun.run_option_sets(ctx, cases, combos, lambda case: [{}],
                            'a document exported in one of the six encodings is not the cell-wise view of the source grid in that encoding', 'document in six encodings')
+    # spines whose type begins with an encoding prefix (`**ekern`, `**bdyn`, ...): unknown types like any other; listed in spine_types they are
+    # exported with the header ** + prefix + type
+    import gen
+    pdocs = []
+    for ptype in ('**ekern', '**bkern', '**aekern', '**bdyn', '**aetext', '**etext', '**bekern', '**akern'):
+        d = gen.DocGen(ctx.rng, profile='free', max_measures=2, max_spines=2, unknown=True).make()
+        j = next(i for i, h in enumerate(d['headers']) if h in ('**recip', '**silbe', '**cdata'))
+        d['headers'][j] = ptype
+        for row in d['rows']:
+            if row['kind'] == 'cells' and row['rk'] == 'header':
+                row['cells'][j]['text'] = ptype
+        pdocs.append(d)
+    pcases = docrun.make_cases(ctx, 0, docs=pdocs)
+    docrun.run_option_sets(ctx, pcases, [{'enc': e, 'include': None, 'exclude': None} for e in ENCS],
+                           lambda case: [{'types': sorted(set(case.adoc['headers']))}, {'types': sorted(set(case.adoc['headers']) | {'**kern'})}],
+                           'a spine whose type begins with an encoding prefix is not exported with the header ** + prefix + type', 'prefixed spine types')
     # one Exporter object serving several exports (spine-type query first, then the six encodings with two category selections, then again
     # without decorations): every result must be what a fresh exporter gives, and plain = stripped extended on those results
     from kernpy.core import Exporter, ExportOptions
